@@ -286,13 +286,21 @@ impl Walrus {
             debug_print!("[recovery] file {}", file_path);
 
             let mut block_offset: u64 = 0;
+            // All-zero units seen since the last block that holds data. A block that was
+            // allocated but never written (e.g. the first block of a topic whose first append
+            // was rejected) must not hide the blocks allocated after it, and it did consume a
+            // block id; trailing zero units are simply the unallocated rest of the file.
+            let mut zero_units: usize = 0;
             while block_offset + DEFAULT_BLOCK_SIZE <= MAX_FILE_SIZE {
-                // heuristic: if first bytes are zero, assume no more blocks
                 let mut probe = [0u8; 8];
                 mmap.read(block_offset as usize, &mut probe);
                 if probe.iter().all(|&b| b == 0) {
-                    break;
+                    zero_units += 1;
+                    block_offset += DEFAULT_BLOCK_SIZE;
+                    continue;
                 }
+                next_block_id += zero_units;
+                zero_units = 0;
 
                 let mut used: u64 = 0;
                 let mut entries_in_block: u64 = 0;
